@@ -67,6 +67,14 @@ func runC05(r *oblig.Report) {
 	e5path.CollectingLoopsCompleteIn(c.P, r, "R1.6c", "graph", fs)
 	r.Rule("C10.4", "instance-table", "operator nodes get a unique label derived from a random id made in the same invocation (two occurrences never share a node, or the verdict is about another graph)", 1)
 	(&e3order.Analyzer{P: c.P, R: r}).FreshLabels("C10.4", fs, []string{"GetOrAddNode", "AddNode"}, "uniqueLabel", "nodeType", 2)
+	r.Rule("C05.8", "universe", "a map the weight calculation makes and fills is stored, returned or handed on (a computed result is never thrown away)", 0)
+	e5path.NoDiscardedMaps(c.P, r, "C05.8", fs)
+	r.Rule("C05.7", "instance-table", "the cycle segment of the ancestor path starts at the first edge leaving the revisited node (located by the edge's source, never its target)", 1)
+	e5path.CycleSegmentStart(c.P, r, "C05.7")
+	r.Rule("C05.6", "path-enumeration", "an edge that gets the placeholder weight of an unresolved cycle root is filed among that root's dependants on the same path", 1)
+	e5path.PlaceholderRegistered(c.P, r, "C05.6", fs)
+	r.Rule("C05.5", "path-enumeration", "a node without outgoing edges that is not a terminal type ends the weight calculation in an error", 3)
+	e5path.NoTerminalTypeRejected(c.P, r, "C05.5", fs)
 	r.Rule("C05.4", "path-enumeration", "AssignWeights starts the weight calculation from every node it has not visited yet", 1)
 	e5path.EveryNodeWeighed(c.P, r, "C05.4")
 	// the verdict is a function of the model alone: no state survives a Build call in the builder or in the package
@@ -117,6 +125,10 @@ func runC11(r *oblig.Report) {
 	r.Rule("C11.3", "instance-table", "every append to a wildcards list is guarded by !slices.Contains on the same list and element", 2)
 	e2own.SharedSlices(c.P, r, "R2.3", build, fs, []string{"wildcards"}, weightedStructs)
 	e2own.GuardedAppends(c.P, r, "C11.3", fs, "wildcards", weightedStructs)
+	r.Rule("C11.6", "path-enumeration", "a wildcard list that is not empty is only ever extended, and an element found missing from it is appended", 3)
+	e5path.WildcardListsOnlyGrow(c.P, r, "C11.6", fs)
+	r.Rule("C11.5", "instance-table", "the public type named in a wildcard list is the wildcard label without its two-character suffix ':*'", 1)
+	e5path.WildcardNameStrip(c.P, r, "C11.5", fs)
 	r.Rule("C11.4", "path-enumeration", "the dependants of a resolved tuple-cycle root receive the wildcards of that root and of nothing else", 2)
 	e5path.RootWildcardsReachDependants(c.P, r, "C11.4", fs)
 	noPackageState(c.P, r, fs)
